@@ -853,9 +853,10 @@ static int parse_data(vnacal_load_state_t *vlsp, const vnacal_layout_t *vlp,
 	for (pair = child->data.mapping.pairs.start;
 	     pair < child->data.mapping.pairs.top; ++pair) {
 	    yaml_node_t *key, *value;
-	    char prefix[5];
+	    unsigned char prefix[5];
 #define PREFIX(c1, c2, c3, c4) \
-	((c1) | ((c2) << 8) | ((c3) << 16) | ((c4) << 24))
+	((unsigned)(c1) | ((unsigned)(c2) << 8) | ((unsigned)(c3) << 16) | \
+	 ((unsigned)(c4) << 24))
 
 	    /*
 	     * Get key and value nodes.
